@@ -4,10 +4,16 @@ THEOREM_FILE = "Properties/C06.v"
 NEEDS_KNUT = True
 
 RULE = ("tie-rich generated journals (few days, many same-day directives, duplicated transactions, several price paths) spread over "
-        "an include tree of up to 5 files; one of balance (valued or not, with and without -a), print, transcode, check is run 8 "
-        "times with GOMAXPROCS in {1,2,16} and, when the verif hooks are present, different KNUT_VERIF_SCHED seeds; all stdouts and "
-        "exit classes must be identical.  Non-trivial: every case (the generator always produces same-day ties); distinct by input.")
-TRUSTED_BASE = ["Coq 8.16.1 kernel", "extraction + drv_c05.ml", "harness c05.go (obsC06: repeated runs, include-tree writer)",
+        "an include tree of up to 5 files. C06.repeat: one of balance (valued or not, with and without -a), print, transcode, check is "
+        "run 8 times with GOMAXPROCS in {1,2,16} and, when the verif hooks are present, different KNUT_VERIF_SCHED seeds; all stdouts "
+        "and exit classes must be identical. C06.order: `knut print` is run 6 times in the same way (all runs identical), and its "
+        "stdout must equal, byte for byte, the extracted model Source.print_tagged = Build with the source sort (build_sorted) + "
+        "journal.Print, evaluated on the directives tagged with (path of their file, position) and handed over in REVERSED order. "
+        "Non-trivial: every C06.repeat case (the generator always produces same-day ties); a C06.order case when more than one file "
+        "holds directives; distinct by input.")
+TRUSTED_BASE = ["Coq 8.16.1 kernel", "extraction + drv_c05.ml (C06.repeat) + drv_c06.ml (C06.order) + drv_journal.ml (decoder)",
+                "harness c05.go (obsC06: repeated runs, include-tree writer) and c06.go (obsC06Order; layoutPath = the path under which "
+                "knut knows an included file)",
                 "Go scheduler and map seeds are sampled, not enumerated"]
 ASSUMPTIONS = ["float summation order in `portfolio weights` is outside this check (C20)"]
 TECHNIQUE = ("Coq: (A) journal.Builder on directives tagged with their source position, Build with the stable source sort of "
@@ -46,19 +52,27 @@ LEVEL_NOTE = ("Trusted: kernel, extraction, harness; Go runtime sampled. Outside
 
 def plan(tier, seed):
     if tier == "quick":
-        return [("C06", seed, 200, [])]
-    return [("C06", seed + k, 1500, []) for k in range(4)]
+        return [("C06", seed, 200, []), ("C06order", seed, 80, [])]
+    return [("C06", seed + k, 1500, []) for k in range(4)] + [("C06order", seed + k, 600, []) for k in range(4)]
 
 
 def search_plan(seed):
-    return [("C06", seed + 100, 400, [])]
+    return [("C06", seed + 100, 400, []), ("C06order", seed + 100, 200, [])]
 
 
 def compare(c):
+    if c.op == "C06.order":
+        # observed "<runs verdict> | <OK stdout | ERR | PANIC ..>": the binary's print against build_sorted + print_journal
+        parts = c.observed.split(" | ", 1)
+        return len(parts) == 2 and c.model == parts[1]
     return True
 
 
 def nontrivial(c):
+    if c.op == "C06.order":
+        # more than one file holds directives
+        head = c.input.split(" | ")[0].split(" # ")
+        return len(head) == 3 and len(set(head[2].split(","))) > 1
     return True
 
 
